@@ -4,6 +4,7 @@ import (
 	"crypto/sha256"
 	"go/types"
 	"sort"
+	"strings"
 
 	"golang.org/x/tools/go/ssa"
 )
@@ -17,14 +18,38 @@ import (
 
 const vfsRootPath = "/vfs"
 
-type fsNode struct {
-	name    value // string or SStr
+// fsInode is a file's identity and contents (bytes may be symbolic); a
+// directory entry (fsNode) names an inode, an open file keeps its inode.
+type fsInode struct {
+	id      int
 	dir     bool
-	content string
+	content []Int
+}
+
+type fsNode struct {
+	name value // string or SStr
+	ino  *fsInode
 }
 
 type fsModel struct {
 	nodes []*fsNode
+	next  int
+}
+
+func (e *Exec) fsNewInode(dir bool) *fsInode {
+	e.fs.next++
+	return &fsInode{id: e.fs.next, dir: dir}
+}
+
+func concBytes(b []Int) (string, bool) {
+	out := make([]byte, len(b))
+	for i, x := range b {
+		if !x.isConc() {
+			return "", false
+		}
+		out[i] = byte(x.C)
+	}
+	return string(out), true
 }
 
 func (e *Exec) fsLookup(name value) *fsNode {
@@ -55,9 +80,9 @@ func (e *Exec) fsSplit(path value) (value, bool) {
 
 // fileObj is an open *os.File of the model.
 type fileObj struct {
-	node *fsNode
-	off  int
-	eof  value
+	ino *fsInode
+	off int
+	eof value
 }
 
 // infoObj serves as fs.FileInfo and fs.DirEntry.
@@ -65,6 +90,7 @@ type infoObj struct {
 	name value
 	dir  bool
 	size int
+	ino  int
 }
 
 func (o *infoObj) methods() map[string]bool {
@@ -156,16 +182,59 @@ func (e *Exec) fsIntrinsic(name string, args []value) (value, bool) {
 	case "vfsRoot":
 		return vfsRootPath, true
 	case "vfsWrite":
+		// like os.WriteFile: create, or truncate the existing file, then write
 		n := e.fsLookup(args[0])
 		if n == nil {
-			n = &fsNode{name: args[0]}
+			n = &fsNode{name: args[0], ino: e.fsNewInode(false)}
 			e.fs.nodes = append(e.fs.nodes, n)
 		}
-		n.dir, n.content = false, argStr(args[1])
+		n.ino.content = append([]Int{}, strBytes(args[1])...)
 		return nil, true
+	case "vfsAppend":
+		n := e.fsLookup(args[0])
+		if n == nil {
+			n = &fsNode{name: args[0], ino: e.fsNewInode(false)}
+			e.fs.nodes = append(e.fs.nodes, n)
+		}
+		n.ino.content = append(n.ino.content, strBytes(args[1])...)
+		return nil, true
+	case "vfsTruncate":
+		if n := e.fsLookup(args[0]); n != nil {
+			n.ino.content = nil
+		}
+		return nil, true
+	case "vfsRename":
+		n := e.fsLookup(args[0])
+		if n == nil {
+			return nil, true
+		}
+		if o := e.fsLookup(args[1]); o != nil && o != n {
+			for i, x := range e.fs.nodes {
+				if x == o {
+					e.fs.nodes = append(e.fs.nodes[:i:i], e.fs.nodes[i+1:]...)
+					break
+				}
+			}
+		}
+		n.name = args[1]
+		return nil, true
+	case "vfsCopy":
+		n := e.fsLookup(args[0])
+		if n == nil {
+			return nil, true
+		}
+		o := e.fsLookup(args[1])
+		if o == nil {
+			o = &fsNode{name: args[1], ino: e.fsNewInode(false)}
+			e.fs.nodes = append(e.fs.nodes, o)
+		}
+		o.ino.content = append([]Int{}, n.ino.content...)
+		return nil, true
+	case "vfsExists":
+		return Bool{C: e.fsLookup(args[0]) != nil}, true
 	case "vfsMkdir":
 		if e.fsLookup(args[0]) == nil {
-			e.fs.nodes = append(e.fs.nodes, &fsNode{name: args[0], dir: true})
+			e.fs.nodes = append(e.fs.nodes, &fsNode{name: args[0], ino: e.fsNewInode(true)})
 		}
 		return nil, true
 	case "vfsRemove":
@@ -199,7 +268,7 @@ func init() {
 		if n == nil {
 			return tuple{iface{}, notExist(e, "stat")}
 		}
-		return tuple{iface{t: fileInfoT(fn, 0), v: &infoObj{name: n.name, dir: n.dir, size: len(n.content)}}, iface{}}
+		return tuple{iface{t: fileInfoT(fn, 0), v: &infoObj{name: n.name, dir: n.ino.dir, size: len(n.ino.content), ino: n.ino.id}}, iface{}}
 	}
 	stubs["os.ReadDir"] = func(e *Exec, fn *ssa.Function, args []value) value {
 		name, ok := e.fsSplit(args[0])
@@ -212,7 +281,7 @@ func init() {
 		et := fn.Signature.Results().At(0).Type().(*types.Slice).Elem()
 		var out []value
 		for _, n := range nodes {
-			out = append(out, iface{t: et, v: &infoObj{name: n.name, dir: n.dir, size: len(n.content)}})
+			out = append(out, iface{t: et, v: &infoObj{name: n.name, dir: n.ino.dir, size: len(n.ino.content), ino: n.ino.id}})
 		}
 		return tuple{out, iface{}}
 	}
@@ -226,7 +295,7 @@ func init() {
 			return tuple{(*value)(nil), notExist(e, "open")}
 		}
 		p := new(value)
-		*p = &fileObj{node: n, eof: e.ioEOF()}
+		*p = &fileObj{ino: n.ino, eof: e.ioEOF()}
 		return tuple{p, iface{}}
 	}
 	fileOf := func(v value) *fileObj {
@@ -242,20 +311,60 @@ func init() {
 	}
 	stubs["(*os.File).Read"] = func(e *Exec, fn *ssa.Function, args []value) value {
 		f := fileOf(args[0])
-		if f.node.dir {
+		if f.ino.dir {
 			return tuple{mkI64(0), e.newError("read: is a directory", nil)}
 		}
 		buf, _ := args[1].([]value)
-		if f.off >= len(f.node.content) {
+		if len(buf) == 0 {
+			return tuple{mkI64(0), iface{}}
+		}
+		if f.off >= len(f.ino.content) {
 			return tuple{mkI64(0), f.eof}
 		}
 		n := 0
-		for n < len(buf) && f.off < len(f.node.content) {
-			buf[n] = mkByte(f.node.content[f.off])
+		for n < len(buf) && f.off < len(f.ino.content) {
+			buf[n] = f.ino.content[f.off]
 			n++
 			f.off++
 		}
 		return tuple{mkI64(int64(n)), iface{}}
+	}
+	stubs["(*os.File).Seek"] = func(e *Exec, fn *ssa.Function, args []value) value {
+		f := fileOf(args[0])
+		off, wh := args[1].(Int), args[2].(Int)
+		if !off.isConc() || !wh.isConc() {
+			panic(inconclusive{"Seek with symbolic arguments"})
+		}
+		base := 0
+		switch wh.signed() {
+		case 1:
+			base = f.off
+		case 2:
+			base = len(f.ino.content)
+		}
+		np := base + int(off.signed())
+		if np < 0 {
+			return tuple{mkI64(0), e.newError("seek: invalid argument", nil)}
+		}
+		f.off = np
+		return tuple{mkI64(int64(np)), iface{}}
+	}
+	stubs["os.SameFile"] = func(e *Exec, fn *ssa.Function, args []value) value {
+		a, ok1 := args[0].(iface).v.(*infoObj)
+		b, ok2 := args[1].(iface).v.(*infoObj)
+		if !ok1 || !ok2 {
+			panic(inconclusive{"os.SameFile on a FileInfo that is not from the model file system"})
+		}
+		return Bool{C: a.ino == b.ino}
+	}
+	stubs["os.IsNotExist"] = func(e *Exec, fn *ssa.Function, args []value) value {
+		err := args[0].(iface)
+		if o, ok := err.v.(*errObj); ok {
+			if s, isS := o.msg.(string); isS {
+				return Bool{C: strings.HasSuffix(s, "no such file or directory")}
+			}
+		}
+		return Bool{C: false}
 	}
 	stubs["(*os.File).Close"] = func(e *Exec, fn *ssa.Function, args []value) value {
 		fileOf(args[0])
